@@ -157,8 +157,9 @@ package phantoms
 // ---------------- C01: the station's phantom subnet configuration ----------------
 // C01 "station and client derive the same phantom from the same configuration": selection depends on the ORDER of a
 // generation's weighted groups (equal weights are tie-broken by list position, for every client library version), so
-// the loader hands each generation to the selector exactly as the file lists it: it only loads, decodes, converts the
-// generation key and adds - it calls nothing else, and it writes to nothing but what it builds itself.
+// the loader hands each generation to the selector exactly as the file lists it: it passes on the very object that was
+// decoded, and it writes to nothing but what it builds itself (frame: reordering the decoded groups, in place or through
+// a library call, is a write to an object it did not build).
 //@ import strconv "strconv"
 // a generation is stored under the number the file gives it (unless that number is -1 or already taken), as the very
 // configuration object that was passed in; no other generation is touched
@@ -174,7 +175,6 @@ package phantoms
 //@   ensures @C01: forall k uint :: k != result ==> (k in p.Networks) == old(k in p.Networks) && p.Networks[k] == old(p.Networks[k])
 //@   assigns mapof(p.Networks)
 //@ func SubnetsFromTomlFile(path string) (*PhantomIPSelector, error)
-//@   callsonly @C01: toml.LoadFile, Tree).Unmarshal, strconv.Atoi, AddGeneration, fmt.Errorf
 //@   atcall AddGeneration before: assert @C01: arg0 == pss && arg2 == set
 //@   ensures @C01: true
 //@   assigns nothing
